@@ -95,6 +95,13 @@ class Interp:
         with contextlib.redirect_stdout(io.StringIO()):
             return t.grad
 
+    def probe_grad_mode_only(self, where):
+        p = Tensor(1.0, requires_grad=True)
+        if p.requires_grad != self.grad_on:
+            raise Violation("mode_not_restored",
+                            f"{where}: gradient mode is enabled={p.requires_grad}, the mode in force should be enabled="
+                            f"{self.grad_on}; trace={self.trace}", region="backward")
+
     def probe(self, where):
         p = Tensor(1.0, requires_grad=True)
         if p.requires_grad != self.grad_on:
@@ -334,6 +341,7 @@ class Interp:
             raise Violation("backward_rejected", f"backward() raised on a tensor that requires grad; trace={self.trace}")
         if not e["rg"]:
             raise Violation("backward_accepted", f"backward() accepted on a tensor that does not require grad; trace={self.trace}")
+        self.probe_grad_mode_only(f"right after backward on #{i}")
         seen = set()
         self._graph(i, seen)
         for j in seen:
